@@ -479,18 +479,70 @@ def output_time_rule(fn):
             f"  if {c2} then None else Some output_tiered_time.\n")
 
 
+SIM_PROCESS_LOOP = ["sim.tqdm.set_postfix_str('await input')",
+                    "await wait_for_dependencies(sim, lazy_stepping)",
+                    "sim.current_step = heappop(sim.next_steps)",
+                    "<past check>", "<loop guard>",
+                    "input_data = get_input_data(world, sim)",
+                    "max_advance = get_max_advance(world, sim, until)",
+                    "await step(world, sim, input_data, max_advance)",
+                    "rt_check(rt_factor, rt_start, rt_strict, sim)",
+                    "await get_outputs(world, sim)",
+                    "sim.current_step = None",
+                    "notify_dependencies(sim, until)",
+                    "for isim in world.sims.values():\n    advance_progress(isim, world)",
+                    "world.sim_progress = get_progress(world.sims, until)",
+                    "world.tqdm.update(get_avg_progress(world.sims, until) - world.tqdm.n)",
+                    "if world.use_cache:\n    prune_dataflow_cache(world)"]
+
+
+def sim_process(fn):
+    """the loop of sim_process: the ORDER of its blocks is compared literally with the order the model's events assume (wait,
+    pop the earliest step, the two consistency tests, inputs, max_advance, step, real-time check, outputs, notify, advance the
+    progress of EVERY simulator, prune); the two tests are translated"""
+    body = strip_doc(fn.body)
+    tries = [x for x in body if isinstance(x, ast.Try)]
+    if len(tries) != 1: bail(fn, 'sim_process shape')
+    tb = tries[0].body
+    if len(tb) != 3 or ast.unparse(tb[0]) != 'advance_progress(sim, world)' or not isinstance(tb[1], ast.While) \
+            or ast.unparse(tb[1].test) != 'await next_step_settled(sim, world)' or ast.unparse(tb[2]) != "sim.tqdm.set_postfix_str('done')": bail(fn, 'sim_process loop')
+    loop = tb[1].body
+    if len(loop) != len(SIM_PROCESS_LOOP): bail(tb[1], 'number of blocks in the loop')
+    past = guard = None
+    for st, want in zip(loop, SIM_PROCESS_LOOP):
+        if want == '<past check>':
+            if not (isinstance(st, ast.If) and not st.orelse and len(st.body) == 1 and is_raise_simerror(st.body[0])): bail(st, 'past check')
+            c = st.test
+            if not (isinstance(c, ast.Compare) and len(c.ops) == 1 and ast.unparse(c.left) == 'sim.current_step' and ast.unparse(c.comparators[0]) == 'sim.progress.time'): bail(c, 'past check')
+            past = {ast.NotEq: 'negb (teq current_step progress)', ast.Eq: 'teq current_step progress'}.get(type(c.ops[0]))
+            if past is None: bail(c, 'past check operator')
+        elif want == '<loop guard>':
+            if not (isinstance(st, ast.If) and not st.orelse and len(st.body) == 1 and is_raise_simerror(st.body[0])): bail(st, 'loop guard')
+            c = st.test
+            if not (isinstance(c, ast.Call) and is_name(c.func, 'any') and len(c.args) == 1 and isinstance(c.args[0], ast.GeneratorExp)): bail(c, 'loop guard')
+            g = c.args[0]
+            if len(g.generators) != 1 or g.generators[0].ifs or ast.unparse(g.generators[0].iter) != 'sim.current_step.tiers[1:]' or not isinstance(g.generators[0].target, ast.Name): bail(c, 'loop guard range')
+            v = g.generators[0].target.id
+            guard = cmp_int(g.elt, {v: 't', 'world.max_loop_iterations': 'max_loop_iterations'})
+        elif ast.unparse(st) != want:
+            bail(st, f'block differs from the modelled order: expected `{want.splitlines()[0]}`')
+    return ("(* scheduler.sim_process: the two consistency tests made when a step is popped (the order of the loop's blocks is checked literally) *)\n"
+            f"Definition past_check (current_step progress : time) : bool := {past}.\n"
+            f"Definition loop_guard (max_loop_iterations : Z) (current_step : time) : bool := existsb (fun t => {guard}) (tl current_step).\n")
+
+
 def main():
     repo, outdir = sys.argv[1], sys.argv[2]
     tree = ast.parse(open(os.path.join(repo, 'mosaik', 'scheduler.py')).read())
     fns = {n.name: n for n in tree.body if isinstance(n, (ast.FunctionDef, ast.AsyncFunctionDef))}
-    for name in ('get_max_advance', 'advance_progress', 'wait_for_dependencies', 'step', 'get_outputs'):
+    for name in ('get_max_advance', 'advance_progress', 'wait_for_dependencies', 'step', 'get_outputs', 'sim_process'):
         if name not in fns: raise Unsupported(f'function {name} not found')
     ptree = ast.parse(open(os.path.join(repo, 'mosaik', 'progress.py')).read())
     out = ["(* generated by harness/py2coq_sched.py from mosaik/scheduler.py and mosaik/progress.py -- do not edit; regenerated on every run *)",
            "From Coq Require Import ZArith List Bool Arith.", "Import ListNotations.", "From MV Require Import Time.Spec Sched.Timing Sched.GenView.", "Open Scope Z_scope.", "",
            get_max_advance(fns['get_max_advance']), advance_progress(fns['advance_progress']), progress_class(ptree), wait_for_dependencies(fns['wait_for_dependencies']),
            schedule_step(ast.parse(open(os.path.join(repo, 'mosaik', 'simmanager.py')).read())),
-           step_reply(fns['step']), output_time_rule(fns['get_outputs'])]
+           step_reply(fns['step']), output_time_rule(fns['get_outputs']), sim_process(fns['sim_process'])]
     text = '\n'.join(out)
     path = os.path.join(outdir, 'SchedulerFns.v')
     if not os.path.exists(path) or open(path).read() != text:
